@@ -36,3 +36,45 @@ c.apply_fn = _apply_deserialize
 c.model_only = True
 c.modular_only_reason = ("law A1 (cbor2.loads(ENC x) == x) plus `validate_cbor accepts every complete well-formed item`; the body of validate_cbor is "
                          "verified over arbitrary bytes for C17 (only ValueError escapes); its no-false-rejection on valid encodings is B-checked")
+
+
+# ------------------------------------------------------------------------------------------------------------------------------------
+# Helpers for the contracts of the command ENTRY POINTS (cmd_*.main and the thin file-level wrappers): the callee is summarised at the
+# call site by "raises one of its declared exceptions, or returns" with the call and its bound arguments recorded in the trace; the
+# entry point's contract then states which named argument must reach which parameter, in what order the callees run, and what is
+# (not) written.  The callees themselves are verified against their own contracts elsewhere.
+def recording_summary(qualname, raises=(), result=None, note=None):
+    def fn(it, c_, fi, args, kwargs):
+        from pyvc.interp import Env
+        from pyvc.values import NONE
+        from pyvc import clauses
+        env = Env(None, None)
+        it.bind_args(fi, args, kwargs, env)
+        it.assumptions_used.add(note or f"{qualname} at the call site in the command entry point: summarised as `raises {', '.join(raises) or 'nothing'} or returns` (its own contract is verified separately)")
+        k = it.choose(len(raises) + 1, qualname + "_outcome")
+        if k > 0:
+            it.raise_(clauses.resolve_exception(it, raises[k - 1]), "summarised callee raises")
+        res = result(it) if result is not None else NONE
+        it.trace.append(("call", qualname, dict(env.vars), res))
+        return res
+    return fn
+
+
+def calls_of(it, qualname):
+    return [t for t in it.trace if t[0] == "call" and t[1] == qualname]
+
+
+def same_value(x, y):
+    """Is the value that reached the callee THE value of the named argument (same term / same object)?"""
+    import z3
+    if x is y:
+        return z3.BoolVal(True)
+    if hasattr(x, "e") and hasattr(y, "e") and type(x) is type(y):
+        return x.e == y.e
+    return z3.BoolVal(False)
+
+
+def reaches(call, ctx, pairs):
+    """[(formal parameter of the callee, named argument of the entry point)] -> goals `<argument> reaches its parameter`."""
+    import z3
+    return [(f"{actual}_reaches_{formal}", same_value(call[2][formal], ctx.arg(actual)) if formal in call[2] else z3.BoolVal(False)) for formal, actual in pairs]
